@@ -4,9 +4,10 @@
    the names raw_class_file uses for them, the JVMS names of the items are kept as field names.
 
    What is compared ([layout]): the byte shape — for a struct the sequence of items (width of
-   every number, named sub-structure, table with the width of its count or "length given
-   elsewhere"); for a union (enum) the width of the tag and, per alternative, the set of tag
-   values (or the attribute name) selecting it together with its items.  Fields that occupy no
+   every number, named sub-structure, table with the width of its count, "length given
+   elsewhere" or "number of indices given elsewhere"); for a union (enum) the width of the tag and,
+   per alternative, the set of tag values (or the attribute name) selecting it together with its
+   items and whether it takes up two indices of a slot-counted table (4.4.5).  Fields that occupy no
    byte (nowrite) and all names are erased.  What computed items (attribute_length,
    constant_pool_count, tags) must CONTAIN is the subject of the other theorems
    (attr_len_exact, pool_count, dispatch), not of the layout. *)
@@ -15,16 +16,19 @@ From Coq Require Import Ascii.
 Open Scope N_scope.
 
 (* ------------------------------------------------------------------ layouts *)
-Inductive lty := LOne (s : sty) | LVecCount (s : sty) (w : width) | LVecLen (s : sty).
+Inductive lty := LOne (s : sty) | LVecCount (s : sty) (w : width) | LVecLen (s : sty) | LVecSlots (s : sty).
 Inductive lfield := LConst (w : width) | LField (t : lty).
 Inductive ltag := LTagRange (lo hi : N) | LTagName (s : list N) | LTagAny | LTagOther.
-Inductive ldecl := LStruct (fs : list lfield) | LEnum (w : width) (vs : list (ltag * list lfield)).
+(* an alternative: how it is selected, whether it takes two indices, its items *)
+Definition lvariant : Type := ltag * bool * list lfield.
+Inductive ldecl := LStruct (fs : list lfield) | LEnum (w : width) (vs : list lvariant).
 
 Definition layout_ty (t : ty) : lty :=
   match t with
   | One s => LOne s
   | Vec s (VCount w) => LVecCount s w
   | Vec s (VLen _) => LVecLen s
+  | Vec s (VSlots _) => LVecSlots s
   end.
 Fixpoint layout_fields (fs : list field) : list lfield :=
   match fs with
@@ -44,7 +48,7 @@ Definition layout_tag (p : pat) (g : guard) : ltag :=
 Definition layout (d : decl) : ldecl :=
   match d with
   | DStruct fs => LStruct (layout_fields fs)
-  | DEnum _ tw vars _ => LEnum tw (map (fun va => (layout_tag (v_pat va) (v_guard va), layout_fields (v_fields va))) vars)
+  | DEnum _ tw vars _ => LEnum tw (map (fun va => (layout_tag (v_pat va) (v_guard va), v_wide va, layout_fields (v_fields va))) vars)
   end.
 
 Definition width_eqb (a b : width) : bool :=
@@ -60,6 +64,7 @@ Definition lty_eqb (a b : lty) : bool :=
   | LOne x, LOne y => sty_eqb x y
   | LVecCount x v, LVecCount y w => sty_eqb x y && width_eqb v w
   | LVecLen x, LVecLen y => sty_eqb x y
+  | LVecSlots x, LVecSlots y => sty_eqb x y
   | _, _ => false
   end.
 Definition lfield_eqb (a b : lfield) : bool :=
@@ -81,8 +86,8 @@ Definition ltag_eqb (a b : ltag) : bool :=
   | LTagAny, LTagAny => true
   | _, _ => false
   end.
-Definition lvariant_eqb (a b : ltag * list lfield) : bool :=
-  ltag_eqb (fst a) (fst b) && leqb lfield_eqb (snd a) (snd b).
+Definition lvariant_eqb (a b : lvariant) : bool :=
+  ltag_eqb (fst (fst a)) (fst (fst b)) && Bool.eqb (snd (fst a)) (snd (fst b)) && leqb lfield_eqb (snd a) (snd b).
 (* [g] (generated) is laid out as [j] (JVMS): equal structs; for unions the same tag width and
    every generated alternative is an alternative of the JVMS union (the JVMS may have more) *)
 Definition layout_matches (g j : ldecl) : bool :=
@@ -109,7 +114,7 @@ Fixpoint dispatch_ok (ts : list ltag) : bool :=
                 && negb (ltag_eqb t LTagAny) && negb (ltag_eqb t LTagOther) && dispatch_ok ts'
   end.
 Definition decl_dispatch_ok (d : decl) : bool :=
-  match layout d with LStruct _ => true | LEnum _ vs => dispatch_ok (map fst vs) end.
+  match layout d with LStruct _ => true | LEnum _ vs => dispatch_ok (map (fun v => fst (fst v)) vs) end.
 
 (* a literal tag is written as the literal it is recognised by; a named attribute writes the name
    index it was recognised by *)
@@ -147,22 +152,26 @@ Definition computed (x : id) (w : width) : field := FConst x w (CE 32 (ESub ESel
 Definition j_ClassFile : decl := DStruct [
   FConst "magic" W32 (CE 32 (ELit 3405691582));
   u2 "minor_version"; u2 "major_version";
-  (* u2 constant_pool_count; cp_info constant_pool[constant_pool_count-1]: the count is the number
-     of SLOTS plus one (4.4.5: long/double take two), see pool_count below *)
-  FConst "constant_pool_count" W16 (CE 64 (EAdd (ELen "constant_pool") (ELit 1)));
-  FMut "constant_pool" (Vec (Named "CpInfo") (VLen (CE 16 (ESub (EVar "constant_pool_count") (ELit 1))))) None true;
+  (* u2 constant_pool_count; cp_info constant_pool[constant_pool_count-1]: "the constant_pool table is
+     indexed from 1 to constant_pool_count - 1", and (4.4.5) "all 8-byte constants take up two entries
+     in the constant_pool table": the table holds constant_pool_count - 1 INDICES, a long/double
+     entry taking two of them; see pool_count below *)
+  FConst "constant_pool_count" W16 (CE 64 (EAdd (ESlots "constant_pool" "CpInfo") (ELit 1)));
+  FMut "constant_pool" (Vec (Named "CpInfo") (VSlots (CE 16 (ESub (EVar "constant_pool_count") (ELit 1))))) None true;
   u2 "access_flags"; u2 "this_class"; u2 "super_class";
   tab2 "interfaces" U2; tab2 "fields" (Named "FieldInfo"); tab2 "methods" (Named "MethodInfo");
   tab2 "attributes" (Named "AttributeInfo") ].
 
 (* 4.4 cp_info { u1 tag; u1 info[]; } *)
-Definition cp (name : id) (tag : N) (fs : list field) : variant := Variant name (CE 8 (ELit tag)) (PLit tag) GNone fs.
+Definition cp (name : id) (tag : N) (fs : list field) : variant := Variant name (CE 8 (ELit tag)) (PLit tag) GNone fs false.
+(* 4.4.5: an 8-byte constant takes up two entries of the table *)
+Definition cp8 (name : id) (tag : N) (fs : list field) : variant := Variant name (CE 8 (ELit tag)) (PLit tag) GNone fs true.
 Definition j_CpInfo : decl := DEnum "tag" W8 [
   cp "CONSTANT_Utf8" 1 [tab2 "bytes" U1];
   cp "CONSTANT_Integer" 3 [u4 "bytes"];
   cp "CONSTANT_Float" 4 [u4 "bytes"];
-  cp "CONSTANT_Long" 5 [u4 "high_bytes"; u4 "low_bytes"];
-  cp "CONSTANT_Double" 6 [u4 "high_bytes"; u4 "low_bytes"];
+  cp8 "CONSTANT_Long" 5 [u4 "high_bytes"; u4 "low_bytes"];
+  cp8 "CONSTANT_Double" 6 [u4 "high_bytes"; u4 "low_bytes"];
   cp "CONSTANT_Class" 7 [u2 "name_index"];
   cp "CONSTANT_String" 8 [u2 "string_index"];
   cp "CONSTANT_Fieldref" 9 [u2 "class_index"; u2 "name_and_type_index"];
@@ -184,7 +193,7 @@ Definition j_member : decl := DStruct [
 Definition attr (name : string) (fs : list field) : variant :=
   Variant name (CE 16 (EVar "attribute_name_index")) (PBind "attribute_name_index")
     (GPoolUtf8 (CE 16 (EVar "attribute_name_index")) (bytes_of name))
-    (computed "attribute_length" W32 :: fs).
+    (computed "attribute_length" W32 :: fs) false.
 Definition j_AttributeInfo : decl := DEnum "attribute_name_index" W16 [
   attr "ConstantValue" [u2 "constantvalue_index"];                                                     (* 4.7.2 *)
   attr "Code" [u2 "max_stack"; u2 "max_locals"; tab4 "code" U1;                                        (* 4.7.3 *)
@@ -198,7 +207,7 @@ Definition j_AttributeInfo : decl := DEnum "attribute_name_index" W16 [
   attr "SourceFile" [u2 "sourcefile_index"];                                                           (* 4.7.10 *)
   (* 4.7.11: u1 debug_extension[attribute_length] — the length item is the count of the table *)
   Variant "SourceDebugExtension" (CE 16 (EVar "attribute_name_index")) (PBind "attribute_name_index")
-    (GPoolUtf8 (CE 16 (EVar "attribute_name_index")) (bytes_of "SourceDebugExtension")) [tab4 "debug_extension" U1];
+    (GPoolUtf8 (CE 16 (EVar "attribute_name_index")) (bytes_of "SourceDebugExtension")) [tab4 "debug_extension" U1] false;
   attr "LineNumberTable" [tab2 "line_number_table" (Named "LineNumberTableEntry")];                    (* 4.7.12 *)
   attr "LocalVariableTable" [tab2 "local_variable_table" (Named "LocalVariableTableEntry")];           (* 4.7.13 *)
   attr "LocalVariableTypeTable" [tab2 "local_variable_type_table" (Named "LocalVariableTypeTableEntry")]; (* 4.7.14 *)
@@ -220,21 +229,21 @@ Definition j_AttributeInfo : decl := DEnum "attribute_name_index" W16 [
   attr "Record" [tab2 "components" (Named "RecordComponentInfo")];                                     (* 4.7.30 *)
   attr "PermittedSubclasses" [tab2 "classes" U2];                                                      (* 4.7.31 *)
   (* any other attribute: u1 info[attribute_length] *)
-  Variant "attribute_info" (CE 16 (EVar "attribute_name_index")) (PBind "attribute_name_index") GNone [tab4 "info" U1]
+  Variant "attribute_info" (CE 16 (EVar "attribute_name_index")) (PBind "attribute_name_index") GNone [tab4 "info" U1] false
   ] false.
 
 (* 4.7.3 exception_table entry *)
 Definition j_ExceptionTableEntry := DStruct [u2 "start_pc"; u2 "end_pc"; u2 "handler_pc"; u2 "catch_type"].
 
 (* 4.7.4 verification_type_info, stack_map_frame *)
-Definition vt (name : id) (tag : N) (fs : list field) : variant := Variant name (CE 8 (ELit tag)) (PLit tag) GNone fs.
+Definition vt (name : id) (tag : N) (fs : list field) : variant := Variant name (CE 8 (ELit tag)) (PLit tag) GNone fs false.
 Definition j_VerificationTypeInfo : decl := DEnum "tag" W8 [
   vt "Top_variable_info" 0 []; vt "Integer_variable_info" 1 []; vt "Float_variable_info" 2 [];
   vt "Double_variable_info" 3 []; vt "Long_variable_info" 4 []; vt "Null_variable_info" 5 [];
   vt "UninitializedThis_variable_info" 6 []; vt "Object_variable_info" 7 [u2 "cpool_index"];
   vt "Uninitialized_variable_info" 8 [u2 "offset"] ] true.
 Definition fr (name : id) (lo hi : N) (fs : list field) : variant :=
-  Variant name (CE 8 (EVar "frame_type")) (PRange (Some "frame_type") lo hi) GNone fs.
+  Variant name (CE 8 (EVar "frame_type")) (PRange (Some "frame_type") lo hi) GNone fs false.
 Definition j_StackMapFrame : decl := DEnum "frame_type" W8 [
   fr "same_frame" 0 63 [];
   fr "same_locals_1_stack_item_frame" 64 127 [one "stack" "VerificationTypeInfo"];
@@ -256,8 +265,8 @@ Definition j_Annotation := DStruct [u2 "type_index"; tab2 "element_value_pairs" 
 Definition j_ElementValuePairsEntry := DStruct [u2 "element_name_index"; one "value" "ElementValue"].
 Definition ev (c : string) (fs : list field) : variant :=
   match bytes_of c with
-  | [t] => Variant c (CE 8 (ELit t)) (PLit t) GNone fs
-  | _ => Variant c (CE 8 (ELit 0)) (PLit 0) GNone fs
+  | [t] => Variant c (CE 8 (ELit t)) (PLit t) GNone fs false
+  | _ => Variant c (CE 8 (ELit 0)) (PLit 0) GNone fs false
   end.
 Definition j_ElementValue : decl := DEnum "tag" W8 [
   ev "B" [u2 "const_value_index"]; ev "C" [u2 "const_value_index"]; ev "D" [u2 "const_value_index"];
@@ -356,28 +365,23 @@ Qed.
 Theorem attr_variants_nonempty : (28 <= length attr_variants)%nat.
 Proof. vm_compute. repeat constructor. Qed.
 
-(* ------------------------------------------------------------------ constant_pool_count (4.1, 4.4.5) — known finding F10 *)
-Definition cp_index (name : id) : option nat :=
-  match lookup raw_env "CpInfo"%string with
-  | Some (DEnum _ _ vars _) =>
-      (fix find (vs : list variant) (k : nat) : option nat :=
-         match vs with [] => None | va :: vs' => if id_eqb (v_name va) name then Some k else find vs' (S k) end) vars O
-  | _ => None
-  end.
-Definition is_wide (v : val) : bool :=
+(* ------------------------------------------------------------------ constant_pool_count (4.1, 4.4.5) *)
+Definition cp_variants : list variant :=
+  match lookup raw_env "CpInfo"%string with Some (DEnum _ _ vars _) => vars | _ => [] end.
+(* 4.4.5: "All 8-byte constants take up two entries in the constant_pool table": the structures
+   tagged CONSTANT_Long (5) and CONSTANT_Double (6) *)
+Definition jvms_wide_variant (va : variant) : bool :=
+  match v_pat va with PLit n => (n =? 5) || (n =? 6) | _ => false end.
+Definition jvms_is_wide (v : val) : bool :=
   match v with
-  | VV k _ => match cp_index "Long"%string, cp_index "Double"%string with
-              | Some a, Some b => Nat.eqb k a || Nat.eqb k b
-              | _, _ => false
-              end
+  | VV k _ => match nth_error cp_variants k with Some va => jvms_wide_variant va | None => false end
   | _ => false
   end.
-(* the class of the known finding: the pool holds a Long or a Double *)
-Definition has_wide (pool : list val) : bool := existsb is_wide pool.
-(* 4.1: "constant_pool_count is the number of entries in the constant_pool table plus one", where
-   (4.4.5) a long/double takes up two entries *)
+Definition has_wide (pool : list val) : bool := existsb jvms_is_wide pool.
+(* 4.1: "The value of the constant_pool_count item is equal to the number of entries in the
+   constant_pool table plus one", where (4.4.5) a long/double takes up two entries *)
 Fixpoint jvms_pool_slots (pool : list val) : N :=
-  match pool with [] => 0 | e :: pool' => (if is_wide e then 2 else 1) + jvms_pool_slots pool' end.
+  match pool with [] => 0 | e :: pool' => (if jvms_is_wide e then 2 else 1) + jvms_pool_slots pool' end.
 Definition jvms_pool_count (pool : list val) : N := jvms_pool_slots pool + 1.
 
 Definition pool_count_expr : option cexpr :=
@@ -394,38 +398,54 @@ Definition pool_count_expr : option cexpr :=
 (* what _write computes for the constant_pool_count item (before the `as u16`) *)
 Definition written_pool_count (pool : list val) : res N :=
   match pool_count_expr with
-  | Some e => ceval [("constant_pool"%string, VL pool)] Err e
+  | Some e => ceval raw_env [("constant_pool"%string, VL pool)] Err e
   | None => Err
   end.
 
-Lemma pool_count_expr_is : pool_count_expr = Some (CE 64 (EAdd (ELen "constant_pool"%string) (ELit 1))).
+Lemma pool_count_expr_is : pool_count_expr = Some (CE 64 (EAdd (ESlots "constant_pool"%string "CpInfo"%string) (ELit 1))).
 Proof. vm_compute. reflexivity. Qed.
 
-Lemma slots_no_wide pool : has_wide pool = false -> jvms_pool_slots pool = N.of_nat (length pool).
+(* slots() of the generated table flags exactly the variants tagged 5 and 6 *)
+Lemma wide_table : forallb (fun va => Bool.eqb (v_wide va) (jvms_wide_variant va)) cp_variants = true.
+Proof. vm_compute. reflexivity. Qed.
+
+Lemma cp_lookup : exists tv tw ft, lookup raw_env "CpInfo"%string = Some (DEnum tv tw cp_variants ft).
+Proof. eexists. eexists. eexists. vm_compute. reflexivity. Qed.
+
+Theorem slots_is_jvms : forall v, is_wide raw_env "CpInfo"%string v = jvms_is_wide v.
 Proof.
-  induction pool as [|e pool IH]; intros H; [reflexivity|].
-  cbn [has_wide existsb] in H. apply orb_false_iff in H as [He Hp].
-  cbn [jvms_pool_slots length]. rewrite He, (IH Hp). lia.
+  intros v. destruct cp_lookup as (tv & tw & ft & Hl). unfold is_wide, jvms_is_wide. rewrite Hl.
+  destruct v as [| | |k fs]; try reflexivity.
+  destruct (nth_error cp_variants k) as [va|] eqn:Ek; [|reflexivity].
+  pose proof wide_table as H. rewrite forallb_forall in H.
+  apply eqb_prop. apply H. eapply nth_error_In. exact Ek.
 Qed.
 
-Theorem pool_count_is_jvms : forall pool, has_wide pool = false -> N.of_nat (length pool) < 65535 ->
+Lemma slots_of_jvms pool : slots_of (is_wide raw_env "CpInfo"%string) pool = jvms_pool_slots pool.
+Proof.
+  induction pool as [|e pool IH]; [reflexivity|].
+  cbn [slots_of jvms_pool_slots]. unfold slots1. rewrite slots_is_jvms, IH. reflexivity.
+Qed.
+
+(* for EVERY pool (long/double entries included) whose count fits the u2 item, the count written is
+   the JVMS one *)
+Theorem pool_count_is_jvms : forall pool, jvms_pool_count pool < 65536 ->
   written_pool_count pool = Ok (jvms_pool_count pool).
 Proof.
-  intros pool Hw Hl. unfold written_pool_count. rewrite pool_count_expr_is.
-  unfold ceval, jvms_pool_count. cbn [ce_aw ce_e eval lookup id_eqb String.eqb Ascii.eqb Bool.eqb bind].
-  rewrite (slots_no_wide _ Hw).
-  replace (N.of_nat (length pool) + 1 <? 2 ^ 64) with true; [reflexivity|].
+  intros pool Hl. unfold written_pool_count. rewrite pool_count_expr_is.
+  unfold ceval, jvms_pool_count in *. cbn [ce_aw ce_e eval lookup id_eqb String.eqb Ascii.eqb Bool.eqb bind].
+  rewrite slots_of_jvms.
+  replace (jvms_pool_slots pool + 1 <? 2 ^ 64) with true; [reflexivity|].
   symmetry. apply N.ltb_lt. change (2 ^ 64) with 18446744073709551616. lia.
 Qed.
 
-Definition wide_witness : list val := [VV 7 [VN 0; VN 1]].   (* CpInfo::Long { high_bytes: 0, low_bytes: 1 } *)
+(* a pool with a Long, a Utf8 and a Double: five indices, count 6 *)
+Definition wide_witness : list val :=
+  [VV 7 [VN 0; VN 1]; VV 10 [VL [VN 65]]; VV 8 [VN 1074003968; VN 0]].
 
-Theorem pool_count_refuted : exists pool, has_wide pool = true /\ written_pool_count pool <> Ok (jvms_pool_count pool).
-Proof. exists wide_witness. split; [vm_compute; reflexivity|]. vm_compute. discriminate. Qed.
-
-(* the unrestricted statement: NOT proved (false today, F10) *)
-Definition pool_count_full : Prop :=
-  forall pool, N.of_nat (length pool) < 65535 -> written_pool_count pool = Ok (jvms_pool_count pool).
+Theorem pool_count_wide_example :
+  has_wide wide_witness = true /\ length wide_witness = 3%nat /\ written_pool_count wide_witness = Ok 6.
+Proof. repeat split; vm_compute; reflexivity. Qed.
 
 (* ------------------------------------------------------------------ corollaries for the public functions *)
 Theorem class_length_exact D v bs : class_write D v = Ok bs -> N.of_nat (length bs) < 4294967296 ->
@@ -453,7 +473,7 @@ Proof.
   rewrite app_nil_r in E. subst pre. exact Hw.
 Qed.
 
-(* ------------------------------------------------------------------ F10, reading side: a witness *)
+(* ------------------------------------------------------------------ reading a pool with a long: an independent walk *)
 (* JVMS 4.4.5 walk of a constant pool: Some wide = well-formed, wide tells whether a long/double occurs *)
 Fixpoint jvms_scan_pool (fuel : nat) (slots : N) (wide : bool) (bs : list N) : option (bool * list N) :=
   match fuel with
@@ -490,16 +510,16 @@ Definition jvms_pool_of_class (bs : list N) : option (bool * list N) :=
    this_class, super_class, and four empty tables *)
 Definition wide_class_bytes : list N := [202;254;186;190;0;0;0;52;0;3;5;0;0;0;0;0;0;0;1;0;33;0;0;0;0;0;0;0;0;0;0;0;0].
 
-Theorem wide_class_refuted :
-  (exists rest, jvms_pool_of_class wide_class_bytes = Some (true, rest) /\ length rest = 14%nat)
-  /\ class_read raw_env wide_class_bytes = Err.
-Proof. split; [eexists; split|]; vm_compute; reflexivity. Qed.
-
 (* ------------------------------------------------------------------ non-vacuity *)
 (* raw_class_file/tests/simple_expected.class *)
 Definition ex_simple : list N := [202;254;186;190;0;0;0;52;0;20;1;0;9;84;104;105;115;67;108;97;115;115;7;0;1;1;0;9;84;104;97;116;67;108;97;115;115;7;0;3;1;0;13;84;104;105;115;73;110;116;101;114;102;97;99;101;7;0;5;1;0;13;84;104;97;116;73;110;116;101;114;102;97;99;101;7;0;7;1;0;9;116;104;105;115;70;105;101;108;100;1;0;1;73;1;0;13;67;111;110;115;116;97;110;116;86;97;108;117;101;3;0;0;0;42;1;0;9;116;104;97;116;70;105;101;108;100;1;0;1;70;4;66;41;97;229;1;0;10;116;104;105;115;77;101;116;104;111;100;1;0;3;40;41;73;1;0;10;116;104;97;116;77;101;116;104;111;100;1;0;3;40;41;70;0;0;0;2;0;4;0;2;0;6;0;8;0;2;0;0;0;9;0;10;0;1;0;11;0;0;0;2;0;12;0;0;0;13;0;14;0;1;0;11;0;0;0;2;0;15;0;2;4;0;0;16;0;17;0;0;4;0;0;18;0;19;0;0;0;0].
 (* corpus/C20/r17/Flow.class (javac 17: Code, StackMapTable with four kinds of frames, LineNumberTable, LocalVariableTable) *)
 Definition ex_flow : list N := [202;254;186;190;0;0;0;61;0;33;10;0;2;0;3;7;0;4;12;0;5;0;6;1;0;16;106;97;118;97;47;108;97;110;103;47;79;98;106;101;99;116;1;0;6;60;105;110;105;116;62;1;0;3;40;41;86;7;0;8;1;0;16;106;97;118;97;47;108;97;110;103;47;83;116;114;105;110;103;7;0;10;1;0;29;106;97;118;97;47;108;97;110;103;47;65;114;105;116;104;109;101;116;105;99;69;120;99;101;112;116;105;111;110;7;0;12;1;0;4;70;108;111;119;1;0;4;67;111;100;101;1;0;15;76;105;110;101;78;117;109;98;101;114;84;97;98;108;101;1;0;18;76;111;99;97;108;86;97;114;105;97;98;108;101;84;97;98;108;101;1;0;4;116;104;105;115;1;0;6;76;70;108;111;119;59;1;0;1;102;1;0;22;40;73;76;106;97;118;97;47;108;97;110;103;47;79;98;106;101;99;116;59;41;73;1;0;1;105;1;0;1;73;1;0;1;101;1;0;31;76;106;97;118;97;47;108;97;110;103;47;65;114;105;116;104;109;101;116;105;99;69;120;99;101;112;116;105;111;110;59;1;0;1;97;1;0;1;111;1;0;18;76;106;97;118;97;47;108;97;110;103;47;79;98;106;101;99;116;59;1;0;1;115;1;0;13;83;116;97;99;107;77;97;112;84;97;98;108;101;7;0;30;1;0;19;106;97;118;97;47;108;97;110;103;47;84;104;114;111;119;97;98;108;101;1;0;10;83;111;117;114;99;101;70;105;108;101;1;0;9;70;108;111;119;46;106;97;118;97;0;33;0;11;0;2;0;0;0;0;0;2;0;1;0;5;0;6;0;1;0;13;0;0;0;47;0;1;0;1;0;0;0;5;42;183;0;1;177;0;0;0;2;0;14;0;0;0;6;0;1;0;0;0;1;0;15;0;0;0;12;0;1;0;0;0;5;0;16;0;17;0;0;0;1;0;18;0;19;0;1;0;13;0;0;1;21;0;2;0;6;0;0;0;106;3;62;3;54;4;21;4;27;162;0;29;44;193;0;7;153;0;11;29;21;4;96;62;167;0;8;29;21;4;100;62;132;4;1;167;255;227;29;27;108;62;132;3;1;167;0;21;58;4;2;62;132;3;1;167;0;11;58;5;132;3;1;25;5;191;27;171;0;0;0;0;36;0;0;0;2;0;0;0;1;0;0;0;26;0;0;0;2;0;0;0;31;6;62;167;0;10;7;62;167;0;5;8;62;29;172;0;4;0;37;0;41;0;47;0;9;0;37;0;41;0;57;0;0;0;47;0;51;0;57;0;0;0;57;0;59;0;57;0;0;0;3;0;14;0;0;0;22;0;5;0;0;0;3;0;2;0;4;0;37;0;5;0;65;0;6;0;104;0;7;0;15;0;0;0;62;0;6;0;5;0;32;0;20;0;21;0;4;0;49;0;2;0;22;0;23;0;4;0;0;0;106;0;16;0;17;0;0;0;0;0;106;0;24;0;21;0;1;0;0;0;106;0;25;0;26;0;2;0;2;0;104;0;27;0;21;0;3;0;28;0;0;0;25;0;11;253;0;5;1;1;20;4;250;0;5;73;7;0;9;73;7;0;29;7;26;4;4;1;0;1;0;31;0;0;0;2;0;32].
+
+(* corpus/C20/r8/WideConst.class (javac 17 --release 8: `long L = 1234567890123L; double D = 2.5;` and a
+   method using `2L`: a pool with two CONSTANT_Long and one CONSTANT_Double, ConstantValue attributes,
+   attribute names BEHIND the wide entries) *)
+Definition ex_wide : list N := [202;254;186;190;0;0;0;52;0;29;10;0;2;0;3;7;0;4;12;0;5;0;6;1;0;16;106;97;118;97;47;108;97;110;103;47;79;98;106;101;99;116;1;0;6;60;105;110;105;116;62;1;0;3;40;41;86;5;0;0;0;0;0;0;0;2;7;0;10;1;0;9;87;105;100;101;67;111;110;115;116;5;0;0;1;31;113;251;4;203;1;0;1;76;1;0;1;74;1;0;13;67;111;110;115;116;97;110;116;86;97;108;117;101;1;0;1;68;6;64;4;0;0;0;0;0;0;1;0;4;67;111;100;101;1;0;15;76;105;110;101;78;117;109;98;101;114;84;97;98;108;101;1;0;18;76;111;99;97;108;86;97;114;105;97;98;108;101;84;97;98;108;101;1;0;4;116;104;105;115;1;0;11;76;87;105;100;101;67;111;110;115;116;59;1;0;5;116;119;105;99;101;1;0;4;40;74;41;74;1;0;1;97;1;0;10;83;111;117;114;99;101;70;105;108;101;1;0;14;87;105;100;101;67;111;110;115;116;46;106;97;118;97;0;33;0;9;0;2;0;0;0;2;0;25;0;13;0;14;0;1;0;15;0;0;0;2;0;11;0;25;0;16;0;16;0;1;0;15;0;0;0;2;0;17;0;2;0;1;0;5;0;6;0;1;0;19;0;0;0;47;0;1;0;1;0;0;0;5;42;183;0;1;177;0;0;0;2;0;20;0;0;0;6;0;1;0;0;0;1;0;21;0;0;0;12;0;1;0;0;0;5;0;22;0;23;0;0;0;1;0;24;0;25;0;1;0;19;0;0;0;62;0;4;0;3;0;0;0;10;31;20;0;7;105;20;0;11;97;173;0;0;0;2;0;20;0;0;0;6;0;1;0;0;0;4;0;21;0;0;0;22;0;2;0;0;0;10;0;22;0;23;0;0;0;0;0;10;0;26;0;14;0;1;0;1;0;27;0;0;0;2;0;28].
 
 Definition example_ok (bs : list N) : bool :=
   match class_read_strict raw_env bs with
@@ -512,6 +532,38 @@ Definition example_ok (bs : list N) : bool :=
 
 Definition nonvacuous : Prop :=
   example_ok ex_simple = true /\ example_ok ex_flow = true /\ Forall (fun b => b < 256) ex_flow.
+
+(* pools with long/double entries: the strict reader accepts the file to its end, the value is inside
+   the hypotheses of read_write, the writer reproduces the bytes and length() is their number; the
+   independent 4.4.5 walk confirms that the pool is well-formed and holds an 8-byte constant *)
+Definition class_has_wide (bs : list N) : bool :=
+  match class_read raw_env bs with
+  | Ok (VS (_ :: _ :: VL pool :: _), _) => has_wide pool
+  | _ => false
+  end.
+Definition wide_examples : Prop :=
+  (exists rest, jvms_pool_of_class wide_class_bytes = Some (true, rest) /\ length rest = 14%nat) /\
+  example_ok wide_class_bytes = true /\ class_has_wide wide_class_bytes = true /\
+  (exists rest, jvms_pool_of_class ex_wide = Some (true, rest)) /\
+  example_ok ex_wide = true /\ class_has_wide ex_wide = true /\ Forall (fun b => b < 256) ex_wide.
+
+Theorem wide_examples_hold : wide_examples.
+Proof.
+  split; [eexists; split; vm_compute; reflexivity|].
+  split; [vm_compute; reflexivity|]. split; [vm_compute; reflexivity|].
+  split; [eexists; vm_compute; reflexivity|].
+  split; [vm_compute; reflexivity|]. split; [vm_compute; reflexivity|].
+  apply Forall_forall. intros b Hb.
+  assert (H : forallb (fun b => b <? 256) ex_wide = true) by (vm_compute; reflexivity).
+  rewrite forallb_forall in H. apply N.ltb_lt. apply H. exact Hb.
+Qed.
+
+(* a pool whose entries do not take up exactly constant_pool_count - 1 indices is refused: count 2
+   (one index) followed by a CONSTANT_Long (two indices) *)
+Definition overshoot_class_bytes : list N := [202;254;186;190;0;0;0;52;0;2;5;0;0;0;0;0;0;0;1;0;33;0;0;0;0;0;0;0;0;0;0;0;0].
+Theorem pool_overshoot_refused :
+  class_read raw_env overshoot_class_bytes = Err /\ jvms_pool_of_class overshoot_class_bytes = None.
+Proof. split; vm_compute; reflexivity. Qed.
 
 Theorem nonvacuous_holds : nonvacuous.
 Proof.
